@@ -88,6 +88,15 @@ def asMap (bs : Bindings) (x : String) : Option Value := bs.reverse.lookup x
 /-- no two bindings share a name -/
 def Admissible (bs : Bindings) : Prop := (bs.map Prod.fst).Nodup
 
+/-- Some binding differs (by `eq`) from the binding of the same name that precedes it: what makes
+an import declaration an error ("one name imported with two different bindings"). -/
+def Clash (eq : Value → Value → Bool) (bs : Bindings) : Prop :=
+  ∃ pre x w post v, bs = pre ++ (x, w) :: post ∧ asMap pre x = some v ∧ eq v w = false
+
+/-- any two bindings of one name are `eq` (earlier against later) -/
+def Compatible (eq : Value → Value → Bool) (bs : Bindings) : Prop :=
+  bs.Pairwise (fun p q => p.1 = q.1 → eq p.2 q.2 = true)
+
 /-- several import sets in one declaration: their bindings one after the other (so, as a map,
 the union in which a later set overrides an earlier one) -/
 def denoteAll : List ImportSet → (LibName → Option Bindings) → Option Bindings
@@ -130,6 +139,10 @@ def exportsOf (st : State) (n : LibName) : Option S.Bindings :=
     match libLookup st.factories n with
     | some (.native d) => some d
     | _ => none
+
+/-- the comparison `eval_import` uses for two bindings of one name: the derived `PartialEq` of
+`Value` (numbers by `=`, pairs and vectors by content, procedures by their text) -/
+def importEq (st : State) (v w : Value) : Bool := Prim.derivedEq st.store 100000 v w
 
 /-- `st'` is `st` except for the instance cache -/
 def SameButInstances (st st' : State) : Prop := st' = { st with instances := st'.instances }
